@@ -18,6 +18,8 @@ def main():
     if not os.path.exists(os.path.join(d, "patch.diff")):
         d = os.path.join("/tmp/seeds", sid)
     patch = os.path.join(d, "patch.diff")
+    if os.path.exists(os.path.join(d, "patch_ported.diff")):
+        patch = os.path.join(d, "patch_ported.diff")  # /tmp/seeds/<id>: re-applied by hand on the current HEAD
     meta = json.load(open(os.path.join(d, "meta.json"))) if os.path.exists(os.path.join(d, "meta.json")) else {}
     checks = sys.argv[2].split(",") if len(sys.argv) > 2 else [meta.get("property", sid[:3])]
     tier = sys.argv[3] if len(sys.argv) > 3 else "quick"
